@@ -116,16 +116,32 @@ theorem C09_all_fold (as : List (Arg V)) (o : Opts) (v : V) :
   rcases allLoop_spec o as v with ⟨r, hs, hl⟩ | ⟨e, w, hs, hl⟩
   · rw [hl, hs]; rfl
   · rw [hl, hs]
-    obtain ⟨e', he'⟩ := handle_then_raise o {} e w
+    obtain ⟨e', he'⟩ := handle_then_raise o {} e.wrapParse w
     simp only [he']; rfl
 
-/-- without error collection even the exception is the one the failing argument raised -/
+/-- without error collection even the exception is the one the failing argument raised — as it is when it is a
+`ParseError`, wrapped into a `ParseError` otherwise (so that only parse errors leave a conjunction) -/
 theorem C09_all_fold_exact (as : List (Arg V)) (o : Opts) (v : V) (h : o.collectErrors = false) :
-    logicalAll as o v = allSpec as o v := by
+    logicalAll as o v = (allSpec as o v).mapError Err.wrapParse := by
   unfold logicalAll
   rcases allLoop_spec o as v with ⟨r, hs, hl⟩ | ⟨e, w, hs, hl⟩
   · rw [hl, hs]; rfl
-  · rw [hl, hs]; simp [handleError, h, afterHandle]
+  · rw [hl, hs]; simp [handleError, h, afterHandle, Except.mapError]
+
+/-- the exception that leaves a fail-fast conjunction is always a `ParseError` (class-id convention of the model) -/
+theorem C09_all_raises_parse_error (as : List (Arg V)) (o : Opts) (v : V) (e : Err)
+    (h : o.collectErrors = false) (he : logicalAll as o v = .error e) : e.isParseError = true := by
+  rw [C09_all_fold_exact as o v h] at he
+  cases hs : allSpec as o v with
+  | ok r => rw [hs] at he; cases he
+  | error e0 =>
+    rw [hs] at he
+    simp only [Except.mapError, Except.error.injEq] at he
+    subst he
+    unfold Err.wrapParse
+    split
+    · assumption
+    · decide
 
 /-! ### union -/
 
